@@ -13,9 +13,10 @@ import common
 import conc
 import driver
 import lanes
+import lanewords
 
 PROPERTIES_FILE = "Properties/Properties_C04.v"
-COQ_DEPS = ["Proofs/Lane_iface.vo", "Proofs/CLane_main.vo", "Proofs/CLane_order.vo", "Proofs/CLane_live.vo"]
+COQ_DEPS = ["Proofs/Lane_iface.vo", "Proofs/CLane_main.vo", "Proofs/CLane_order.vo", "Proofs/CLane_live.vo", "Model/LaneWords.vo"]
 GEN_MODULES = ["Gen_dqstate", "Gen_lanesites", "Gen_once"]
 LEVEL = "proof"
 COQ_TIMEOUT = 2400
@@ -426,6 +427,15 @@ def correspond(ctx):
     dist = res.get("distribution", {})
     dist.update(stats)
     res["distribution"] = dist
+    # word-transition conformance of the shared lane scenarios (quick tier: without the width_exhaustion scenario, whose many
+    # distinct width states dominate the cost; CLane's own trace check above covers the width arithmetic on every run)
+    scen = None if ctx.tier == "thorough" else ["concurrent_barriers", "concurrent_each_api", "apply", "set_width"]
+    label, words = lanes.run_part("words", lambda c: lanewords.run(c, "C04", scenarios=scen), ctx)
+    res["evaluations"] = res.get("evaluations", 0) + int(words.get("evaluations", 0))
+    res["mismatches"] = (res.get("mismatches", []) + [dict(m, part="words") if isinstance(m, dict) else m for m in words.get("mismatches", [])])[:20]
+    res["failures"] = (res.get("failures", []) + [dict(f, part="words") for f in words.get("failures", [])])[:20]
+    res["rule"] += " || [words] " + words.get("rule", "")
+    res["distribution"]["words"] = words.get("distribution", {})
     return res
 
 
